@@ -719,6 +719,38 @@ pub fn run(_params: &Params) {
       }
     }
   }
+  // ---- an IotaDocument obtained by CONVERSION from a CoreDocument whose controller is not an IOTA DID (the conversion
+  // checks nothing). Such a document is no IOTA document; refusing to pack it is fine, but what packs has to unpack.
+  if ctx::choose(16) == 0 {
+    if let AnyDoc::Iota(doc) = &p.doc {
+      let mut cj = serde_json::to_value(doc.core_document()).unwrap();
+      cj["controller"] = ["did:sim:elsewhere", "did:web:example.com", "did:key:z6MkSim"][ctx::choose(3)].into();
+      if let Ok(core) = identity_document::document::CoreDocument::from_json_value(cj) {
+        let mut converted = IotaDocument::from(core);
+        converted.metadata = doc.metadata.clone();
+        ctx::stat("probe.converted_document_with_foreign_controller");
+        ctx::sched("conv", 1);
+        match ctx::catch(|| converted.clone().pack()) {
+          Ok(Ok(bytes)) => match ctx::catch(|| unpack_for(&bytes, &p.did)) {
+            Ok(Ok(u)) => {
+              let want = serde_json::to_value(converted.core_document()).unwrap();
+              check_unpacked("converted-document", &Ok(u), &want, &expected_meta(&converted));
+            }
+            Ok(Err(e)) => ctx::violation(
+              "C14",
+              "C14.round_trip",
+              "converted-document/packs-but-does-not-unpack",
+              format!("an IotaDocument converted from a CoreDocument with a non-IOTA controller packed into {} bytes, which unpack rejects: {e}", bytes.len()),
+            ),
+            Err(pmsg) => ctx::violation("C14", "C14.round_trip", "converted-document/unpack-panic", format!("unpack panicked: {pmsg}")),
+          },
+          Ok(Err(_)) => ctx::stat("probe.converted_document_refused_by_pack"),
+          Err(pmsg) => ctx::violation("C14", "C14.round_trip", "converted-document/pack-panic", format!("pack panicked: {pmsg}")),
+        }
+      }
+    }
+  }
+
   // ---- a body written by another implementation whose controller is a DID that ends in a percent-encoded octet (legal
   // DID syntax): whatever unpack makes of it, it returns
   if ctx::choose(12) == 0 {
